@@ -62,6 +62,9 @@ POISON = _Poison()
 # ---------------------------------------------------------------------------
 # paths (eager forking by re-execution under a decision oracle)
 # ---------------------------------------------------------------------------
+from sympy import Basic as _sp_Basic
+
+
 class Path:
     """One execution path: a prefix of forced decisions, then free ones."""
 
@@ -76,6 +79,18 @@ class Path:
         self.after = None         # optional callable(cond, decision) run after each decision
 
     def decide(self, cond):
+        # the same condition asked twice on one path has one answer (trace nodes are hash-consed, sympy conditions compare
+        # structurally); z3 conditions are kept consistent by the solver-backed decider instead
+        if isinstance(cond, Node) or isinstance(cond, _sp_Basic):
+            prior = self.__dict__.setdefault("_decided", {})
+            if cond in prior:
+                return prior[cond]
+            d = self._decide(cond)
+            prior[cond] = d
+            return d
+        return self._decide(cond)
+
+    def _decide(self, cond):
         i = len(self.decisions)
         feas = (True, True)
         if self.decider is not None:
@@ -126,14 +141,20 @@ def active(path):
     return _Active(path)
 
 
-def explore(fn, decider=None, max_paths=4096):
+class PathList(list):
+    """explore() result; `truncated` is True when the path budget ran out before every path was run"""
+    truncated = False
+
+
+def explore(fn, decider=None, max_paths=4096, on_budget="raise"):
     """Run `fn()` on every feasible path.  Returns [(Path, result-or-exception)].
 
     `fn` is re-executed from scratch for each path (it must build its own
     symbolic inputs); decisions are replayed from the path prefix.
+    on_budget="stop": return the paths run so far with .truncated = True instead of raising.
     """
     todo = [[]]
-    out = []
+    out = PathList()
     while todo:
         prefix = todo.pop()
         p = Path(prefix, decider)
@@ -143,12 +164,101 @@ def explore(fn, decider=None, max_paths=4096):
         except PathInfeasible:
             continue
         out.append((p, res))
-        if len(out) > max_paths:
+        if len(out) >= max_paths and (todo or any(p.forkable[i] for i in range(len(prefix), len(p.decisions)))):
+            if on_budget == "stop":
+                out.truncated = True
+                return out
             raise RuntimeError("path explosion: more than %d paths" % max_paths)
         for i in range(len(prefix), len(p.decisions)):
             if p.forkable[i]:
                 todo.append(p.decisions[:i] + [not p.decisions[i]])
     return out
+
+
+def path_equalities(path=None):
+    """[(a, b)] trace nodes the current path has decided equal (cmp_eq True / cmp_ne False)"""
+    path = path if path is not None else current_path()
+    out = []
+    if path is None:
+        return out
+    for cond, d in path.conds:
+        if isinstance(cond, Node) and len(cond.items) == 3 and ((cond.items[0] == "cmp_eq" and d) or (cond.items[0] == "cmp_ne" and not d)):
+            out.append((cond.items[1], cond.items[2]))
+    return out
+
+
+def canon(n, eqs=None, _cache=None):
+    """Representative of trace node `n` modulo the equalities of the current path (one bottom-up congruence pass):
+    on the path where the code found `lat == lat_prev`, a value computed from lat_prev IS the value computed from lat."""
+    eqs = path_equalities() if eqs is None else eqs
+    if not eqs or not isinstance(n, Node):
+        return n
+    p = current_path()
+    store = None
+    if p is not None:
+        store = p.__dict__.setdefault("_canon", {})
+        key = len(eqs)
+        if store.get("key") != key:
+            store.clear()
+            store["key"] = key
+            store["memo"] = {}
+            store["rep"] = None
+    memo = store["memo"] if store is not None else {}
+    # union-find over canonical forms, built incrementally in the order the equalities were decided
+    rep = store.get("rep") if store is not None else None
+    if rep is None:
+        rep = {}
+
+        def find(x):
+            while x in rep:
+                x = rep[x]
+            return x
+
+        def rebuild0(x, m):
+            r = m.get(x)
+            if r is not None:
+                return r
+            if x.items[0] in ("leaf", "const"):
+                r = find(x)
+            else:
+                r = find(Node(x.items[0], *[rebuild0(c, m) if isinstance(c, Node) else c for c in x.items[1:]]))
+            m[x] = r
+            return r
+        for a, b in eqs:
+            m = {}
+            ra, rb = rebuild0(a, m), rebuild0(b, m)
+            if ra is not rb:
+                rep[rb] = ra
+        if store is not None:
+            store["rep"] = rep
+
+    def find(x):
+        while x in rep:
+            x = rep[x]
+        return x
+
+    def rebuild(x):
+        r = memo.get(x)
+        if r is not None:
+            return r
+        stack = [(x, False)]
+        while stack:
+            y, done = stack.pop()
+            if y in memo:
+                continue
+            if y.items[0] in ("leaf", "const"):
+                memo[y] = find(y)
+                continue
+            kids = [c for c in y.items[1:] if isinstance(c, Node)]
+            if not done:
+                stack.append((y, True))
+                for c in kids:
+                    if c not in memo:
+                        stack.append((c, False))
+                continue
+            memo[y] = find(Node(y.items[0], *[memo[c] if isinstance(c, Node) else c for c in y.items[1:]]))
+        return memo[x]
+    return rebuild(n)
 
 
 def decide(cond):
@@ -277,6 +387,12 @@ class Sym:
     def arctan2(self, o): return self._bin("arctan2", o)
     def hypot(self, o): return self._bin("hypot", o)
     def floor(self): return self._un("floor")
+    def ceil(self): return self._un("ceil")
+    def rint(self): return self._un("rint")          # np.round(x, d) = rint(x * 10**d) / 10**d on object arrays
+    def trunc(self): return self._un("trunc")
+    def __round__(self, n=None):
+        k = 10 ** (n or 0)
+        return (self * k).rint() / k
     def isfinite(self): return True
     def isnan(self): return False
 
@@ -335,6 +451,9 @@ _R_UN = {
     "deg2rad": lambda x: _scale(x, _PI180),
     "rad2deg": lambda x: _scale(x, 1 / _PI180),
     "floor": sp.floor,
+    "ceil": sp.ceiling,
+    "rint": lambda x: sp.floor(x + sp.Rational(1, 2)),      # over the reals; ties (half to even) are a null set
+    "trunc": lambda x: sp.sign(x) * sp.floor(sp.Abs(x)),
 }
 _R_BIN = {
     "add": operator.add, "sub": operator.sub, "mul": operator.mul,
@@ -581,6 +700,10 @@ class TSym(Sym):
                     "ge": operator.ge, "eq": operator.eq}[name](a[1], b[1])
         if name == "eq" and a is b:
             return True
+        # IEEE: every comparison with a NaN constant is false (a memo initialised with nan never hits)
+        for x in (a, b):
+            if _is_c(x) and isinstance(x[1], float) and x[1] != x[1]:
+                return False
         return decide(Node("cmp_" + name, a, b))
 
     def __float__(self):
